@@ -194,16 +194,10 @@ def file_order(trace, n):
     return order
 
 
-class _ConstRandom:
-    """S8 seam: the global PRNG replaced by a constant stream (all keys tie)."""
-
-    def __init__(self, value=0.5):
-        self.value = value
-        self.calls = 0
-
-    def random(self):
-        self.calls += 1
-        return self.value
+def _ConstRandom(value=0.5):
+    """S8 seam: the global PRNG replaced by a constant stream (all keys tie); a full stand-in for the module."""
+    from ..seams import simrandom
+    return simrandom.Stream({'mode': 'constant'})
 
 
 def uses_random(opts):
